@@ -500,3 +500,46 @@ _mk_index_lemma(5, 2)
 _mk_index_lemma(6, 3)
 _mk_index_lemma(8, 3, tier='thorough')
 _mk_index_lemma(8, 4, tier='thorough')
+
+
+@obligation('C11.names.tied_pairs', functions=FUNCS, timeout_s=120, nvalid=2,
+            stubs=['theory := pure-Python stub'],
+            bounds='4 spheres in which spheres (0,1) share one radius prior and (2,3) share another (same key in both '
+                   'pairs), and 2 spheres sharing r next to another prior explicitly named "r": parameter names stay '
+                   'unique, one per distinct prior; name-keyed and list-ordered values give the same scatterer')
+def names_tied_pairs(S):
+    _setup(S)
+    ra = Uniform(0.2, 1.0, guess=0.4)
+    rb = Uniform(0.2, 1.0, guess=0.6)
+    four = Scatterers([Sphere(n=1.5, r=ra, center=(0.0, 0.0, 5.0)), Sphere(n=1.5, r=ra, center=(9.0, 0.0, 5.0)),
+                       Sphere(n=1.5, r=rb, center=(0.0, 9.0, 5.0)), Sphere(n=1.5, r=rb, center=(9.0, 9.0, 5.0))])
+    rc = Uniform(0.2, 1.0, guess=0.5)
+    other = Uniform(1.0, 3.0, guess=2.0, name='r')
+    two = Scatterers([Sphere(n=1.5, r=rc, center=(0.0, 0.0, other)), Sphere(n=1.5, r=rc, center=(9.0, 0.0, 5.0))])
+    for tag, sc, nprior, getters in (
+            ('four', four, 2, [lambda s: s.scatterers[0].r, lambda s: s.scatterers[1].r,
+                               lambda s: s.scatterers[2].r, lambda s: s.scatterers[3].r]),
+            ('two', two, 2, [lambda s: s.scatterers[0].r, lambda s: s.scatterers[1].r,
+                             lambda s: s.scatterers[0].center[2]])):
+        model = AlphaModel(sc, alpha=1.0, theory=StubLens(), medium_index=1.33, illum_wavelen=0.66,
+                           illum_polarization=(1, 0))
+        names = list(model._parameter_names)
+        S.claim(f'{tag}.one_parameter_per_prior', len(model._parameters) == nprior)
+        S.claim(f'{tag}.names_unique', len(set(names)) == len(names))
+        S.claim(f'{tag}.parameters_dict_complete', len(model.parameters) == nprior and
+                len(model.initial_guess) == nprior)
+        vals = [S.real(f'{tag}_v{i}', lo=0.2, hi=3.0) for i in range(len(model._parameters))]
+        by_list = model.scatterer_from_parameters(vals)
+        by_name = model.scatterer_from_parameters({n: v for n, v in zip(names, vals)}) \
+            if len(set(names)) == len(names) else None
+        S.claim(f'{tag}.name_keyed_possible', by_name is not None)
+        guesses = [p.guess for p in model._parameters]
+        for gi, g in enumerate(getters):
+            site_guess = g(model.initial_guess_scatterer)
+            idx = guesses.index(site_guess) if site_guess in guesses else None
+            S.claim(f'{tag}.site{gi}.guess_identifies_prior', idx is not None)
+            if idx is not None:
+                S.claim_eq(f'{tag}.site{gi}.list', g(by_list), vals[idx])
+                if by_name is not None:
+                    S.claim_eq(f'{tag}.site{gi}.by_name', g(by_name), vals[idx])
+    S.observe('v', S.real('four_v0', lo=0.2, hi=3.0))
